@@ -96,6 +96,9 @@ func Main(id, tier string) int {
 		c.Ev.Coverage["abandoned_blocks_rule"] = "blocks that did not finish in an earlier process of this run (watchdog: 10 minutes or 24 GiB); the run was started over and these blocks end with a fault of kind hang, which C07 reports and twins compare"
 		os.Remove(os.Getenv("VERIF_POISON"))
 	}
+	if d := explore.MaxExecution(); d > 0 {
+		c.Ev.Coverage["longest_execution_s"] = d.Seconds()
+	}
 	res := c.Rep.Finish()
 	c.Ev.Violations = res.Violations
 	if res.Known == nil {
@@ -271,7 +274,10 @@ func watchdog(c *Ctx) chan struct{} {
 				fmt.Printf("harness error: check %s did not finish within four times its time budget (%s)\n", c.ID, b)
 				os.Exit(2)
 			}
-			stuck := explore.InFlight(10 * time.Minute)
+			// an execution takes milliseconds, the fast-forward ones of the staking worlds up to a few
+			// seconds (evidence field longest_execution_s); five minutes without returning is a block that
+			// does not finish. All of them are abandoned at once.
+			stuck := explore.InFlight(5 * time.Minute)
 			if ms.Sys > 24<<30 || len(stuck) > 0 {
 				if len(stuck) == 0 {
 					// memory: the longest-running execution is the suspect, if it is running for two minutes
